@@ -402,7 +402,7 @@ def check_iter(ctx, F, A):
 
     def on_crc(ip_, frame, bb, st, what, ref, x):
         if what == "update":
-            st.ghost["c07-feed"] = st.ghost.get("c07-feed", ()) + (tuple(slice_consts(ip_, st, x) or ["?"]),)
+            st.ghost["c07-feed"] = st.ghost.get("c07-feed", ()) + (tuple(slice_consts(ip_, st, x) or uniform_run(ip_, st, x) or ["?"]),)
         elif what == "finalize":
             st.ghost["c07-final"] = True
 
@@ -415,7 +415,76 @@ def check_iter(ctx, F, A):
     old = ip.join_threshold
     ip.join_threshold = 10 ** 9
 
+    def uniform_run(ip_, st, sl):
+        """a slice of unknown (small) length all of whose possible elements are the same constant c: [("rep", c, length)]"""
+        lo, hi = st.interval(sl.n)
+        s0 = st.const_of(sl.start)
+        if lo is None or hi is None or hi > 8 or s0 is None:
+            return None
+        vals = set()
+        for i in range(hi):
+            try:
+                v = ip_.read_raw(st, sl.root, sl.steps + (("ix", Lin.const(s0 + i)),))
+            except Unsupported:
+                return None
+            vals.add(st.const_of(v.lin) if isinstance(v, VInt) else None)
+        if len(vals) != 1 or None in vals:
+            return None
+        return [("rep", vals.pop(), sl.n)]
+
+    def split_open(res):
+        """outcomes whose end-state counter or whose fed run length is still symbolic are split per feasible value, and every update
+        fed to the CRC is flattened into bytes (one update of k zeros = k updates of one zero)"""
+        out = []
+        for r in res:
+            cands = [r["st"]]
+            lins = [x[2] for upd in r["feed"] for x in upd if isinstance(x, tuple) and x and x[0] == "rep"]
+            sv = r["obj"].elems[i_state]
+            var = r["st"].const_of(sv.disc)
+            if var is not None and sv.pay.get(var) and isinstance(sv.pay[var][0], VInt):
+                lins.append(sv.pay[var][0].lin)
+            for ln in lins:
+                nxt = []
+                for s4 in cands:
+                    if s4.const_of(ln) is not None:
+                        nxt.append(s4)
+                        continue
+                    lo, hi = s4.interval(ln)
+                    if lo is None or hi is None or hi - lo > 12:
+                        nxt.append(s4)
+                        continue
+                    for v in range(lo, hi + 1):
+                        s5 = s4.copy()
+                        try:
+                            s5.assume_eq0(ln - v)
+                        except Infeasible:
+                            continue
+                        nxt.append(s5)
+                cands = nxt
+            for s4 in cands:
+                feed = []
+                for upd in r["feed"]:
+                    u = []
+                    for x in upd:
+                        if isinstance(x, tuple) and x and x[0] == "rep":
+                            k = s4.const_of(x[2])
+                            u.extend([x[1]] * k if k is not None else ["?"])
+                        else:
+                            u.append(x)
+                    feed.append(tuple(u))
+                r2 = dict(r)
+                r2["st"] = s4
+                r2["feed"] = tuple(feed)
+                name = r["state"][0]
+                nn = s4.const_of(sv.pay[var][0].lin) if var is not None and sv.pay.get(var) and isinstance(sv.pay[var][0], VInt) else r["state"][1]
+                r2["state"] = (name, nn)
+                out.append(r2)
+        return out
+
     def step(variant, n):
+        return split_open(step0(variant, n))
+
+    def step0(variant, n):
         st, root, stv = enc_state(ip, F, variant, n)
         res = []
         for (s2, rv, args) in A.run_fn(nb, st0=st, first_arg=VRef(root, (), True)):
@@ -528,11 +597,11 @@ def check_iter(ctx, F, A):
         okp_all = True
         n_end = 0
         for r in rs:
-            fd = r["feed"]
-            last = fd[-1] if fd else ()
+            flat = [x for upd in r["feed"] for x in upd]
+            last = flat[-6:]
             pad = last[5][1] if len(last) == 6 and isinstance(last[5], tuple) else (last[5] if len(last) == 6 else None)
-            zeros = fd[:-1]
-            if len(last) == 6 and list(last[:5]) == END5 and all(z == (0,) for z in zeros):
+            zeros = flat[:-6]
+            if len(last) == 6 and list(last[:5]) == END5 and all(z == 0 for z in zeros):
                 padv = pad if isinstance(pad, int) else (r["st"].const_of(pad) if pad is not None else None)
                 p1 = pad_of(r["st"], r["obj"])
                 e = emitted(r)
